@@ -1,17 +1,18 @@
 #!/bin/sh
 # usage: mkmut.sh <ID> <k>  -> creates worktree /tmp/mut-<ID>-<k> with TASK.md (the independent mutation brief)
 set -e
-ID=$1; K=$2; WT=/tmp/mut-$ID-$K
+ID=$1; K=$2; AVOID="$3"; WT=/tmp/mut-$ID-$K
 [ -d "$WT" ] || git -C /repo worktree add --detach "$WT" HEAD -q
-python3 - "$ID" "$WT" <<'PY'
+python3 - "$ID" "$WT" "$AVOID" <<'PY'
 import json,sys
-pid,wt=sys.argv[1],sys.argv[2]
+pid,wt,avoid=sys.argv[1],sys.argv[2],(sys.argv[3] if len(sys.argv)>3 else '')
 tpl=open('/verif/engine/MUTATOR_PROMPT.md').read().split('\n',2)[2]
 for l in open('/verif/properties.jsonl'):
     p=json.loads(l)
     if p['id']==pid:
         t=(tpl.replace('__WT__',wt).replace('__TITLE__',p['title']).replace('__STATEMENT__',p['statement'])
            .replace('__QUANT__',p['quantifier']['text']).replace('__FILES__',', '.join(p['anchors']['files'])))
+        if avoid: t+='\nDIVERSITY: another engineer already produced this change for the same property — produce something in a DIFFERENT function/mechanism/clause: '+avoid+'\n'
         open(wt+'/TASK.md','w').write(t)
         print(wt+'/TASK.md')
 PY
